@@ -71,11 +71,33 @@ def same(a, b):
     return nf.equal(Rat.lift(a), Rat.lift(b))
 
 
+def mode():
+    import os
+    return os.environ.get("TSVERIF_SOLVER_REPLAY", "")
+
+
+def skipped(ctx, rule, fi):
+    """Variant self-tests / seed checks of edits outside the driver, the interpolation and the step functions."""
+    if mode() != "skip":
+        return False
+    ctx.rep.ok(rule, astq.loc(fi), f"{fi.key}::{rule}::not-replayed", "edit outside the driver and the steps: base verdict applies")
+    ctx.floor(rule, 1)
+    return True
+
+
 def scenarios(ctx):
     dom = solvers.Domains(ctx.model)
     scs = list(steps.scenarios(ctx.model, dom))
     if ctx.tier == "quick":
         scs = list(steps.distinct_step_scenarios(ctx.model, dom))
+    if mode() == "light":
+        # one scenario per solver class, the cheap ones
+        seen, out = set(), []
+        for sc in scs:
+            if sc.cls.name not in seen and not (sc.cls.name == "SRK" and "additive" not in sc.label):
+                seen.add(sc.cls.name)
+                out.append(sc)
+        scs = out
     return dom, scs
 
 
@@ -93,6 +115,8 @@ def r12_10(ctx):
     dom, scs = scenarios(ctx)
     integ = model.func(ik.BASE_SOLVER, "BaseSDESolver.integrate")
     rep.analysed(integ)
+    if skipped(ctx, "R12.10", integ):
+        return
     dt = F(1, 8)
     n = 0
     for sc in scs:
@@ -135,7 +159,7 @@ def r12_10(ctx):
             rep.check(not bad, "R12.10", astq.loc(integ), construct,
                       f"{sc.label}, dt = 1/8, horizon {T}: {'; '.join(bad[:2])}: the returned values depend on which other "
                       f"output times were requested", "one dt-grid trajectory, whatever the output times")
-    ctx.floor("R12.10", 16)
+    ctx.floor("R12.10", 6 if mode() == "light" else 16)
 
 
 # ------------------------------------------------------------------------------------------------ R13.8
@@ -149,6 +173,8 @@ def r13_8(ctx):
     dom, scs = scenarios(ctx)
     integ = model.func(ik.BASE_SOLVER, "BaseSDESolver.integrate")
     rep.analysed(integ)
+    if skipped(ctx, "R13.8", integ):
+        return
     dt = F(1, 8)
     for sc in scs:
         rep.analysed(sc.step_fi)
@@ -172,7 +198,7 @@ def r13_8(ctx):
             bad = [f"the solve raises {e.exc_name}: {e.message}"]
         rep.check(not bad, "R13.8", astq.loc(integ), construct,
                   f"{sc.label}, dt = 1/8 over [0, 3/8]: {'; '.join(bad[:2])}", "identical canonical forms")
-    ctx.floor("R13.8", 8)
+    ctx.floor("R13.8", 6 if mode() == "light" else 8)
 
 
 # ------------------------------------------------------------------------------------------------ R15.10
@@ -193,6 +219,8 @@ def r15_10(ctx):
     rep.analysed(integ)
     rb = model.func("torchsde/_brownian/derived.py", "ReverseBrownian.__call__")
     rep.analysed(rb)
+    if skipped(ctx, "R15.10", integ):
+        return
     dt = F(1, 8)
     for sc in rh:
         rep.analysed(sc.step_fi)
